@@ -9,6 +9,25 @@ TECH = ("contract-based deductive verification: sidecar contracts on the real fu
         "/repo ASTs by pyvc on every run, discharged by z3/cvc5; Lean 4 lemmas for the number theory")
 
 CLAIMED = {
+    "C01": dict(
+        category="proof",
+        text=("Every method of the seven Operator classes (modulo, min, max, expand, constructors) and every public "
+              "operation of BitLengthSet is proved against the ghost abstraction D = the mathematically defined set "
+              "(cartesian-product sums, unions, k-fold multiset sums, rounding up to the alignment): min == min D, "
+              "max == max D, modulo(d) == {x mod d | x in D} for every d >= 1, is_aligned_at(d) <=> all elements are "
+              "multiples of d, fixed_length <=> min == max, iteration/expansion == D, and each composition denotes the "
+              "composed set. Operator trees are handled by structural induction (each override is checked against the "
+              "interface contract of its children), counts k and divisors are unbounded mathematical integers; the "
+              "reductions of repetition counts modulo the divisor rest on Lean 4 theorems (periodicity / stabilisation "
+              "of k-fold sumsets in Z/d, padding vs. common multiples, n-ary residues and bounds) re-checked every run."),
+        note=("Assumed: the library model (itertools.product / combinations_with_replacement enumerate exactly the "
+              "tuples / multisets, math.lcm), hand transcription of Lean theorems into SMT prelude axioms, Python sets "
+              "are finite; domain: leaf sets of non-negative ints, k >= 0, alignment >= 1. 'Operands are never "
+              "changed' is covered by the frame#aliased-mutation obligations (in-place set mutation only on values "
+              "the function allocated) and the immutability of operator fields outside __init__ / memo fields. The "
+              "wall-clock assertion in MemoizationOperator.expand is unchecked."),
+        design_ref="DESIGN.md section 5 C01, section 11",
+    ),
     "C11": dict(
         category="proof",
         text=("All obligations generated from the real bodies of _ensure_no_fixed_port_id_collisions, "
